@@ -44,3 +44,7 @@ func C39NextID(a *Agent) uint64 {
 	defer a.controlMu.RUnlock()
 	return a.nextControlID
 }
+
+// C39EnterSleep / C39ExitSleep run the agent's real sleep / wake transitions.
+func C39EnterSleep(a *Agent) error { return a.enterSleep() }
+func C39ExitSleep(a *Agent) error  { return a.exitSleep() }
